@@ -50,6 +50,20 @@ class ModelRandom:
         CALLS.append((self.uid, "random"))
         return v
 
+    # the rest of the public generator API a stream wrapper may use: one pool value per call
+    def getrandbits(self, k):
+        return int(self.random() * (1 << k))
+
+    def randrange(self, a, b=None):
+        a, b = (0, a) if b is None else (a, b)
+        return a + int(self.random() * (b - a))
+
+    def randint(self, a, b):
+        return self.randrange(a, b + 1)
+
+    def uniform(self, a, b):
+        return a + (b - a) * self.random()
+
     def getstate(self):
         return (self._key, self._idx)
 
